@@ -499,10 +499,11 @@ class Rule:
     match: port / chan / data prefix of the reply (None = any), `nth` = apply from the nth matching reply on
     (0-based), `times` = to how many matching replies (None = all of them).
     action: 'dup' (deliver n times in a row), 'delay' (hold until n further requests reached the device, or
-    until the session flushes), 'drop', 'pass'."""
+    until the session flushes), 'late' (deliver now AND once more after n further requests: a stale duplicate),
+    'drop', 'pass'."""
 
     def __init__(self, action, n=1, port=None, chan=None, prefix=None, nth=0, times=None):
-        assert action in ('dup', 'delay', 'drop', 'pass')
+        assert action in ('dup', 'delay', 'late', 'drop', 'pass')
         self.action, self.n, self.port, self.chan = action, n, port, chan
         self.prefix = None if prefix is None else bytes(prefix)
         self.nth, self.times, self.seen = nth, times, 0
@@ -550,6 +551,8 @@ class ReplyPolicy:
                 out += [(0, pkt)] * act.n
             elif act.action == 'delay':
                 out.append((act.n, pkt))
+            elif act.action == 'late':
+                out += [(0, pkt), (act.n, pkt)]
             elif act.action == 'drop':
                 pass
         if self.hook is not None:
